@@ -42,7 +42,7 @@ void STDCALL amgcl_params_seti(amgclHandle prm, const char *name, int value) {
 
 //---------------------------------------------------------------------------
 void STDCALL amgcl_params_setf(amgclHandle prm, const char *name, float value) {
-    static_cast<Params*>(prm)->put(name, value);
+    static_cast<Params*>(prm)->put(name, static_cast<double>(value));
 }
 
 //---------------------------------------------------------------------------
